@@ -107,7 +107,7 @@ func C07(c *Ctx) {
 		"(keys) the record is written under key (msg.id, msg.Height) resp. (msg.id, stored LastTimestampId+1) — the same id and height that were compared; (A3/A4) the cursor is advanced to exactly that height/id on every success path; " +
 		"(A7) field fidelity of the stored record: each stored field originates from the like-named message field (block time for SubTime), and the point query reads through the same key layout with the request's id and height; " +
 		"(A2) a rejecting length comparison exists for every hash field. Decides these structural necessary conditions on every path; the inductive claim 'all stored heights <= Lastblock' is not decided."
-	r.Rules = []string{"A1.record-writers", "A2.record-guards", "A7.record-key", "A3.cursor-update", "A7.record-fields", "A7.point-query-key", "A2.size-checks", "A7.exported-cursor", "A12.decode-fresh", "A3.element-carry", "A6.persistent-store", "A11.listing-order", "A5.export-cap", "A7.import-fields", "A3.id-counter"}
+	r.Rules = []string{"A1.record-writers", "A2.record-guards", "A7.record-key", "A3.cursor-update", "A7.record-fields", "A7.point-query-key", "A2.size-checks", "A7.exported-cursor", "A12.decode-fresh", "A3.element-carry", "A6.persistent-store", "A11.listing-order", "A5.export-cap", "A7.import-fields", "A3.id-counter", "A7.exported-id-counter"}
 	for _, m := range []string{"wrkchain", "beacon"} {
 		r.Floor("loops of "+m+" on record, import and export paths judged for locals carried between elements", elementCarry(c, m, []string{"MSG", "INITGEN", "EXPORTGEN"}), 3)
 	}
@@ -132,6 +132,8 @@ func C07(c *Ctx) {
 			idCounter(c, h, rm.SecReg, rm.SecHigh, "A3.id-counter", []string{rm.SecLimit})
 		}
 	}
+	// ... nor after an export/import cycle: the exported starting id is the stored next-id counter
+	exportGenesisArgs(c, "A7.exported-id-counter", true)
 	decodeFresh(c, "wrkchain", "beacon")
 	for _, rm := range recMods {
 		isW := func(e ir.Effect) bool { return e.Kind == "StoreWrite" && e.Section == rm.SecRec }
@@ -388,7 +390,7 @@ func C09(c *Ctx) {
 	r.Explanation = "(A1) the id counter and the registration section are written only from the roots of the registration life-cycle; (A3) the register route reads the id from the counter section, stores the registration and the default limit, and stores counter := id + 1 on every success path; " +
 		"(A7) field fidelity of the registration literal: Moniker, Name, genesis hash / type come from the like-named message fields, Owner = str(addr(msg.Owner)), id = the counter value, cursor and counters zero, RegTime = block time, stored under the key of that id; " +
 		"(A4) every other writer of the registration section (the record step) re-stores the loaded registration with only the cursor/counter fields changed — never Owner, Moniker, Name, Genesis, Type, RegTime or the id; (A2) owner guards are those of C13/C07 with the id of the key written; (A7) genesis export hands the stored id counter (the next unused id) to the exported starting id, so an export/import cycle cannot re-issue an id. Uniqueness as an inductive property of the counter and uint64 wrap are not decided."
-	r.Rules = []string{"A1.registration-writers", "A3.id-counter", "A7.registration-fields", "A4.immutable-fields", "A7.exported-id-counter", "A12.decode-fresh", "A7.export-complete", "A7.export-fields", "A7.export-counters", "A2.entitlement-guard"}
+	r.Rules = []string{"A1.registration-writers", "A3.id-counter", "A7.registration-fields", "A4.immutable-fields", "A7.exported-id-counter", "A12.decode-fresh", "A7.export-complete", "A7.export-fields", "A7.export-counters", "A2.entitlement-guard", "A7.import-fields"}
 	// a registration keeps existing across a restart: the export lists every one of them (no page of a query helper)
 	exportNotPaginated(c, "wrkchain", "beacon")
 	// ... with the fields it was stored with (nothing rewritten on the way out)
@@ -403,6 +405,10 @@ func C09(c *Ctx) {
 		}
 	}
 	exportGenesisArgs(c, "A7.exported-id-counter", true)
+	// ... and the import stores each registration with the fields it was exported with (Type, Genesis, Owner, Moniker, Name, id)
+	for _, m := range []string{"wrkchain", "beacon"} {
+		importFields(c, m)
+	}
 	// a listing or an export hands back each registration as stored (no field inherited from the registration decoded before it)
 	decodeFresh(c, "wrkchain", "beacon")
 	r.Trusted = []string{"KVStore semantics"}
